@@ -307,6 +307,9 @@ var Prop = &harness.Prop{
 			u = append(u, tableUnit(k))
 		}
 		u = append(u, keyUnit(), keyLenUnit(), aliasUnit())
+		for p := 0; p < 4; p++ {
+			u = append(u, freshProcessUnit(p, 4))
+		}
 		return u
 	},
 }
